@@ -970,7 +970,9 @@ fn derive_dot_expression(
                                     }
                                 }
                             }
-                            Shape::Hole(_) => {
+                            // a candidate that is itself undetermined (a hole, or
+                            // an element of a list of lists / of tuples) may have the field
+                            Shape::Hole(_) | Shape::Narrowed(_) => {
                                 results.push(Shape::Narrowed(NarrowedShape {
                                     pos: pi.pos.clone(),
                                     types: NarrowingShape::Any,
@@ -1014,7 +1016,7 @@ fn derive_dot_expression(
                             Shape::List(lshape) => {
                                 results.push(Shape::Narrowed(lshape.clone()));
                             }
-                            Shape::Hole(_) => {
+                            Shape::Hole(_) | Shape::Narrowed(_) => {
                                 results.push(Shape::Narrowed(NarrowedShape {
                                     pos: pi.pos.clone(),
                                     types: NarrowingShape::Any,
